@@ -710,6 +710,21 @@ func (m *rmodel) scan() {
 					}
 				}
 			}
+			if ev.Kind != "action-proposal" {
+				// what the machine hands to the mirror (first vote, or a recorded vote sent again after a
+				// restart) is a vote for exactly (kind, height, round, target): the sign content it names is
+				// the scheme's content for that vote and the signature is the local key's over it
+				want := m.w.voteContent(ev.Kind == "action-precommit", ev.H, ev.R, ev.S)
+				if !bytes.Equal(ev.G, want) {
+					for _, prop := range []string{"C02", "C10"} {
+						m.failf(prop, "emitted-vote-sign-content", "", "%s emitted for %d/%d (target %s) names sign content %q, the content of that vote is %q", ev.Kind[7:], ev.H, ev.R, short(ev.S), ev.G, want)
+					}
+				} else if !m.w.fx.PrivVals[0].Val.PubKey.Verify(want, ev.B) {
+					for _, prop := range []string{"C02", "C10"} {
+						m.failf(prop, "emitted-vote-signature", "", "%s emitted for %d/%d (target %s): the signature does not verify under the local key for that vote", ev.Kind[7:], ev.H, ev.R, short(ev.S))
+					}
+				}
+			}
 			if !m.saved[fmt.Sprintf("%s|%d|%d|%x", ev.Kind[7:], ev.H, ev.R, ev.B)] {
 				m.failf("C02", "emit-before-save", "", "%s for %d/%d (target %s) emitted without a preceding successful save of the same signature", ev.Kind[7:], ev.H, ev.R, short(ev.S))
 			}
